@@ -100,3 +100,81 @@ def native_convert_check(model, cfg):
     except Exception as e:
         return {"reproduced": True, "detail": f"scale {si}: raised {e!r}"}
     return {"reproduced": False, "detail": f"scale {si}: destination equals source"}
+
+
+# --------------------------------------------------------------------------- the driver
+
+import types  # noqa: E402
+
+from .c01_nibabel import Logged  # noqa: E402
+
+
+def _mk_logged(target_, name_, result_fn):
+    class _L(Logged):
+        target = target_
+        name = name_
+
+        def apply(self, interp, fn, args, kwargs):
+            r = result_fn(args, kwargs)
+            ctx().calls_log.append((self.target, {"args": args, "kwargs": kwargs}, r))
+            return r
+    return _L
+
+
+@register
+class ConvertChunksDriver(Contract):
+    """convert_chunks: reader = IO of the source dataset, writer = IO of the destination (its own info,
+    or a copy of the source's with --copy-info), both with the encoder options; the transformer is built
+    for (source data type, destination data type); EVERY scale of the destination is converted exactly
+    once with that reader/writer/transformer"""
+    target = CC + "convert_chunks"
+    props = ("C13",)
+    use_at_call_sites = False
+    configs = tuple((n, copy) for n in (1, 3) for copy in (False, True))
+
+    def local_contracts_for(self, cfg):
+        u = self
+        acc = _mk_logged("neuroglancer_scripts.accessor.get_accessor_for_url", "get_accessor_for_url[call-site]",
+                         lambda a, k: "<acc:%s>" % a[0])
+        ex = _mk_logged("neuroglancer_scripts.precomputed_io.get_IO_for_existing_dataset", "get_IO_for_existing_dataset[call-site]",
+                        lambda a, k: u.io_for(a[0], k))
+        new = _mk_logged("neuroglancer_scripts.precomputed_io.get_IO_for_new_dataset", "get_IO_for_new_dataset[call-site]",
+                         lambda a, k: types.SimpleNamespace(info=a[0], accessor=a[1], opts=k.get("encoder_options"), new=True))
+        tr = _mk_logged("neuroglancer_scripts.data_types.get_chunk_dtype_transformer", "get_chunk_dtype_transformer[call-site]",
+                        lambda a, k: ("<transformer>", a[0], a[1]))
+        one = _mk_logged(CC + "convert_chunks_for_scale", "convert_chunks_for_scale[call-site]", lambda a, k: None)
+        return {k_.target: k_() for k_ in (acc, ex, new, tr, one)}
+
+    def io_for(self, accessor, kw):
+        info = self.src_info if accessor == "<acc:src>" else self.dst_info
+        return types.SimpleNamespace(info=info, accessor=accessor, opts=kw.get("encoder_options"), new=False)
+
+    def setup(self, c, cfg):
+        n, copy = cfg
+        self.cfg = cfg
+        mk = lambda dt: {"type": "image", "data_type": dt, "num_channels": 1, "scales": [{"key": f"s{i}"} for i in range(n)]}
+        self.src_info, self.dst_info = mk("uint16"), mk("uint32")
+        self.opts = {"gzip": True}
+        return ("src", "dst"), {"copy_info": copy, "options": self.opts}
+
+    def bind(self, fn, args, kwargs):
+        return {}
+
+    def ensures(self, c, result):
+        n, copy = self.cfg
+        log = c.calls_log
+        conv = [x for x in log if x[0] == CC + "convert_chunks_for_scale"]
+        tr = [x for x in log if x[0].endswith("get_chunk_dtype_transformer")]
+        yield ("every-destination-scale-converted-exactly-once", sorted(x[1]["args"][3] for x in conv) == list(range(n)))
+        yield ("one-transformer-for-(source type, destination type)", len(tr) == 1 and tr[0][1]["args"][0] == "uint16"
+               and tr[0][1]["args"][1] == ("uint16" if copy else "uint32"))
+        if not conv or len(tr) != 1:
+            return
+        rd, dinfo, wr, _, t = conv[0][1]["args"]
+        yield ("reader-is-the-IO-of-the-source", rd.accessor == "<acc:src>" and rd.info is self.src_info)
+        yield ("writer-is-the-IO-of-the-destination-with-the-options", wr.accessor == "<acc:dst>" and wr.opts is self.opts and wr.new == copy)
+        yield ("destination-info(copy of the source's with --copy-info)", dinfo is (self.src_info if copy else self.dst_info) and wr.info is dinfo)
+        yield ("same-reader-writer-transformer-for-every-scale",
+               all(x[1]["args"][0] is rd and x[1]["args"][2] is wr and x[1]["args"][4] is tr[0][2] and x[1]["args"][1] is dinfo for x in conv))
+        accs = [x for x in log if x[0].endswith("get_accessor_for_url")]
+        yield ("destination-accessor-gets-the-options", any(x[1]["args"][0] == "dst" and len(x[1]["args"]) > 1 and x[1]["args"][1] is self.opts for x in accs))
